@@ -59,8 +59,10 @@ import (
 	"verif/harness/vh"
 )
 
-// scFull: thorough tier — more repetitions per number / context (the string programs rotate the
-// shape-special pairing from program to program, so ten programs per form meet the whole cross product).
+// scFull: thorough tier. The programs have the same size in both tiers (one generated function per
+// program: a very large one dominates the build); thorough runs ten programs of every feature, the string
+// programs rotate the shape-special pairing from program to program (nine meet the whole cross product),
+// contexts and library-class samples are redrawn each time.
 var scFull bool
 
 type scVal struct {
@@ -634,10 +636,7 @@ func init() {
 			if ctx.num {
 				continue
 			}
-			reps := 2
-			if full {
-				reps = 6
-			}
+			reps := 2 // (thorough runs ten programs of every feature: the contexts and payloads are redrawn each time)
 			for k := 0; k < reps; k++ {
 				id := fmt.Sprintf("%sc%dk%d", u, ci, k)
 				for try := 0; try < 20; try++ {
@@ -655,9 +654,6 @@ func init() {
 		multi("sc", tag, func(r *vh.Rand, u string, full bool) (parts []string, libs []map[string]string, ids []string) {
 			for i, v := range vals {
 				reps := 2
-				if full {
-					reps = 5
-				}
 				for k := 0; k < reps; k++ {
 					id := fmt.Sprintf("%sn%dk%d", u, i, k)
 					ctx := scNumCtx(r, kind)
@@ -745,7 +741,7 @@ func init() {
 	multi("cls", "sc-cls-num", func(r *vh.Rand, u string, full bool) (parts []string, libs []map[string]string, ids []string) {
 		all := append(append(append([]scNum{}, scInts()...), scFloats...), scConsts...)
 		for i, v := range all {
-			if !full && (i+r.Intn(3))%3 != 0 {
+			if (i+r.Intn(3))%3 != 0 {
 				continue
 			}
 			id := fmt.Sprintf("%sn%d", u, i)
